@@ -16,6 +16,12 @@ open Tables Spec
 theorem no_alloc_refs : externalRefs.all (fun r => !r.path.startsWith "alloc" && r.kind != "extern-crate") = true := by
   decide +kernel
 
+/-- **C14 (a'').** No `extern` block is compiled into a shipped build: the library declares no symbol that something outside
+`core` (libm, libc, …) would have to provide at link time. -/
+theorem no_foreign_symbols :
+    externalRefs.all (fun r => r.kind != "foreign" || (noStdBuilds ++ stdBuilds).all (fun b => !compiledIn b r)) = true := by
+  decide +kernel
+
 /-- **C14 (a').** No allocating item of the std prelude — `vec!`, `format!`, `Vec`, `Box`, `String`, `Rc`, `Arc`, `.to_vec()`,
 `.to_owned()`, `.to_string()` … (they are not spelled `std::` / `alloc::`, so they have their own row kind) — is compiled
 into a shipped build, with or without `std`: every such occurrence sits under `cfg(test)`. -/
